@@ -808,9 +808,6 @@ fn bank_from(b: &BankSrc) -> R<Bank> {
     if bits == 0 {
         return unspec("bank with zero-bit address unit (C19)");
     }
-    if b.size == Some(0) {
-        return unspec("zero-size bank");
-    }
     Ok(Bank {
         name: b.name.clone(),
         bits,
@@ -1213,10 +1210,16 @@ fn assemble_inner(prog: &Prog, claimed: Option<&[usize]>) -> R<RefOk> {
     }
     let mut intervals: Vec<(usize, usize)> = vec![];
     let mut out_len = 0usize;
+    let mut empty_fill_end = 0usize;
     for b in banks.iter().skip(1) {
         if b.fill {
             if let (Some(o), Some(s)) = (b.outp, b.size) {
-                out_len = out_len.max(o + s);
+                if s == 0 {
+                    // whether an empty filled bank extends the output up to its position is not determined
+                    empty_fill_end = empty_fill_end.max(o);
+                } else {
+                    out_len = out_len.max(o + s);
+                }
             }
         }
     }
@@ -1250,6 +1253,9 @@ fn assemble_inner(prog: &Prog, claimed: Option<&[usize]>) -> R<RefOk> {
                 out_len = out_len.max(e);
             }
         }
+    }
+    if empty_fill_end > out_len {
+        return unspec("an empty filled bank lies beyond the end of the output");
     }
     let mut bits: Vec<u8> = vec![b'0'; out_len];
     for p in &placements {
